@@ -14,6 +14,7 @@ import (
 // converged reports whether the target of every reconciler equals the table
 // and every live object is Done (C14).
 func (w *world) converged() (bool, string) {
+	w.stuckID = 0
 	rtxn := w.db.ReadTxn()
 	table := map[uint64]*RObj{}
 	for o := range w.table.All(rtxn) {
@@ -23,6 +24,7 @@ func (w *world) converged() (bool, string) {
 		for id, o := range table {
 			tv, ok := rc.target[id]
 			if !ok || tv != o.Val {
+				w.stuckID = id
 				return false, fmt.Sprintf("reconciler %d: object %d has val=%d in the table but the target holds %v (present %v)", rc.idx, id, o.Val, tv, ok)
 			}
 			k := kindOf(w.statusOf(o, rc.idx))
@@ -30,11 +32,13 @@ func (w *world) converged() (bool, string) {
 				if w.refreshEvery > 0 && (k == "Refreshing") {
 					continue
 				}
+				w.stuckID = id
 				return false, fmt.Sprintf("reconciler %d: object %d has status %s", rc.idx, id, k)
 			}
 		}
 		for id := range rc.target {
 			if _, ok := table[id]; !ok {
+				w.stuckID = id
 				return false, fmt.Sprintf("reconciler %d: the target still holds object %d which was removed from the table", rc.idx, id)
 			}
 		}
@@ -77,6 +81,11 @@ func (w *world) final() {
 		}
 		if !ok {
 			_, why := w.converged()
+			if w.prop == "C15" && w.stuckID != 0 && w.overtaken[w.stuckID] {
+				// C15's own clause: an object changed or deleted while an operation ran is reconciled again
+				w.violate("C15", "not-reconciled-again", "object %d was changed or deleted while an Update of it ran, and %v after operations stopped failing and the table stopped changing its latest state has still not been reconciled: %s", w.stuckID, s.Now()-start, why)
+				return
+			}
 			w.violate("C14", "no-convergence", "%v of virtual time after operations stopped failing and the table stopped changing (bound: max backoff %v + %d rounds of %v + longest delay %v + 1s) the target does not equal the table: %s",
 				s.Now()-start, w.maxBackoff, rounds, w.roundEvery, w.longestDelay, why)
 			return
